@@ -26,6 +26,8 @@ def driver_text(c):
             L.append("write %d %d %s" % (o["k"], rq(o["req"]), o["p"][1:]))
         elif k == "close":
             L.append("close %d" % o["k"])
+        elif k == "abandon":
+            L.append("abandon %d" % o["k"])
         elif k == "update":
             L.append("update %d %d %s" % (o["d"], rq(o["req"]), o["p"][1:]))
         elif k == "rename":
@@ -100,7 +102,7 @@ def run(chk, replay):
         elif cur is not None and l:
             pred[cur].append(l)
     stat = {"ops": 0, "open": 0, "write": 0, "close": 0, "update": 0, "rename": 0, "removeOld": 0, "removeAll": 0, "age": 0,
-            "same_second_cases": 0, "glob_name_cases": 0, "op_errors": {}}
+            "abandon": 0, "big_status_writes": 0, "same_second_cases": 0, "glob_name_cases": 0, "op_errors": {}}
     dis = 0
     for c in cases:
         r = results.get(c["id"])
@@ -115,7 +117,7 @@ def run(chk, replay):
         if cls_all != "plain":
             chk.nontrivial.add(c["id"])
         for i, o in enumerate(c["ops"]):
-            stat["ops"] += 1; stat[o["op"]] = stat.get(o["op"], 0) + 1
+            stat["ops"] += 1; stat[o["op"]] = stat.get(o["op"], 0) + 1; stat["big_status_writes"] += bool(o.get("big"))
             if i >= len(ans): break
             a = ans[i]
             if a.get("err"):
